@@ -46,6 +46,8 @@ pub fn programs() -> Vec<(&'static str, String)> {
         ("recursion with locals", "fn r(n, acc) {\na := n\nb := acc\nif n == 0 {\nreturn acc\n}\nreturn r(n - 1, acc + [a])\n}\nprint(r(20, []))\n".to_string()),
         ("unicode text", "s := \"é€😀\"\nprint(s + s)\nprint($\"<${s}>\")\nprint(s->len())\n".to_string()),
         ("equality on wide objects", format!("{}p := {{}}\nfor [k, v] in o {{\np[k] = v\n}}\nprint(p == o)\nprint(o)\n", big)),
+        ("type function stored in an object", "name := \"abc\"\ntools := {\"size\": name->len, \"kind\": name->type, \"f\": fn () {\nreturn 1\n}}\nprint(\"start\")\nprint(tools.size())\n".to_string()),
+        ("two different duplicated parameter names in patterns", "print(\"start\")\nfn area([width, height], {\"w\": width, \"h\": height}, depth, depth) {\n}\n".to_string()),
         ("error inside nested calls", "fn a1(x) {\nreturn b1(x)\n}\nfn b1(y) {\nreturn c1(y)\n}\nfn c1(z) {\nreturn z.missing\n}\nprint(\"start\")\na1({\"k\": 1})\n".to_string()),
         ("for over an object built by collect", format!("{}{{k3, ..r}} := o\nfor [k, v] in r {{\nprint([k, v])\n}}\n{{k1, k2, ..s}} = r\nprint(s)\n", big).replace("{k1, k2, ..s} = r", "k1 := 0\nk2 := 0\ns := 0\n{k1, k2, ..s} = r")),
     ]
@@ -346,7 +348,7 @@ impl Check for C19 {
     fn run(&self, ctx: &mut Ctx) -> Result<(), MachineryError> {
         let thorough = ctx.tier == Tier::Thorough;
         let progs = programs();
-        let progs: Vec<_> = if thorough { progs } else { progs.into_iter().step_by(2).collect() };
+        let progs: Vec<_> = progs;
         // seeds that cover every iteration order
         let (seeds, covered) = seed_list(if thorough { 4 } else { 3 }, 32, if thorough { 600 } else { 200 })?;
         let fact = if thorough { 24 } else { 6 };
